@@ -58,7 +58,7 @@ Proof.
     rewrite Z.sub_diag, read_loop_done. cbn [bind fst snd]. eexists _, _, _; reflexivity.
 Qed.
 
-Lemma mread_4 : forall m cs a, exists b0 b1 b2 b3, mread m cs a 4 = [b0; b1; b2; b3].
+Lemma mread_4 : forall m vb cs a, exists b0 b1 b2 b3, mread m vb cs a 4 = [b0; b1; b2; b3].
 Proof. intros. unfold mread. rewrite seq4. cbn [map]. eexists _, _, _, _; reflexivity. Qed.
 
 Lemma read_sv_word_progress : forall c w off x y,
@@ -69,7 +69,7 @@ Proof.
   intros c w off x y Hc Ha Hb Hx Hy Hoff Hd. unfold read_sv_word.
   destruct (read_progress c w x y 0 (sv_base + off) 4 Hc Ha ltac:(lia) ltac:(lia) Hx Hy Hoff Hd) as (c1 & w1 & d & Hr).
   rewrite Hr. cbn [bind fst snd]. apply read_inv in Hr; [|exact Hc|lia].
-  destruct Hr as (_ & _ & _ & (xy & ch & _ & Hdd) & _). destruct (mread_4 (w_m w) (ch_cores ch) (sv_base + off)) as (b0 & b1 & b2 & b3 & E).
+  destruct Hr as (_ & _ & _ & (xy & ch & _ & Hdd) & _). destruct (mread_4 (w_m w) (m_vcpu (w_m w) xy) (ch_cores ch) (sv_base + off)) as (b0 & b1 & b2 & b3 & E).
   rewrite Hdd, E. cbn [of_le32]. eexists _, _, _; reflexivity.
 Qed.
 
@@ -89,21 +89,23 @@ Proof. intros m H. exact H. Qed.
 
 Lemma read_cpu_state_progress : forall c w x y p,
   ctrl_wf c (w_m w) -> machine_wf (w_m w) -> alive (w_m w) ->
-  m_vcpu (w_m w) + VCPU_SIZE * N_CORES <= 4294967296 ->
+  m_vcpu (w_m w) (x, y) + VCPU_SIZE * N_CORES <= 4294967296 ->
   in_space (x, y, p) -> ~ (x = 255 /\ y = 255) -> In (x, y) (map fst (m_chips (w_m w))) ->
   exists c' w' s, read_cpu_state c w x y p = Ok (c', w', s).
 Proof.
   intros c w x y p Hc Hm Ha Hv (Hx & Hy & Hp) Hxy Hin. unfold read_cpu_state.
-  pose proof Hm as (_ & _ & _ & Hvcpu & _ & Hbuf & _).
+  pose proof Hm as (_ & _ & _ & Hvcpu & _ & Hbuf & _). specialize (Hvcpu _ Hin).
   pose proof (dest_chip_has _ _ _ Hin Hxy) as Hd.
   destruct (read_sv_word_progress c w sv_vcpu_base_offset x y Hc Ha Hbuf Hx Hy ltac:(vm_compute; split; congruence) Hd)
     as (c1 & w1 & v & Hr). rewrite Hr. cbn [bind].
-  apply read_sv_word_inv in Hr; [|exact Hc|lia]. destruct Hr as (Hm1 & Hcb1 & Hcn1 & (xy & ch & _ & Hv1) & _).
+  apply read_sv_word_inv in Hr; [|exact Hc|lia]. destruct Hr as (Hm1 & Hcb1 & Hcn1 & (xy & ch & Hdc & Hv1) & _).
+  rewrite dest_chip_plain in Hdc by exact Hxy.
+  destruct (cassoc (x, y) (m_chips (w_m w))) as [ch0|]; [|discriminate]. inversion Hdc; subst xy ch. clear Hdc.
   rewrite mread_vcpu_base, of_le32_le32 in Hv1 by exact Hvcpu. inversion Hv1; subst v. clear Hv1.
   assert (Hc1 : ctrl_wf c1 (w_m w1)).
   { split; [rewrite Hcn1; exact (proj1 Hc)|right; rewrite Hcb1, Hm1; reflexivity]. }
   unfold VCPU_SIZE, N_CORES in Hv. change vcpu_size with 128. change vcpu_cpu_state_offset with 46. change vcpu_cpu_state_size with 1.
-  destruct (read_progress c1 w1 x y 0 (m_vcpu (w_m w) + 128 * p + 46) 1 Hc1) as (c2 & w2 & d & Hr2);
+  destruct (read_progress c1 w1 x y 0 (m_vcpu (w_m w) (x, y) + 128 * p + 46) 1 Hc1) as (c2 & w2 & d & Hr2);
     try (rewrite Hm1); try assumption; try lia.
   rewrite Hr2. cbn [bind fst snd]. apply read_inv in Hr2; [|exact Hc1|rewrite Hm1; lia].
   destruct Hr2 as (_ & _ & _ & (xy2 & ch2 & _ & Hdd) & _). rewrite Hdd. unfold mread. cbn [Z.to_nat Pos.to_nat Pos.iter_op seq map].
@@ -234,7 +236,7 @@ Lemma answers_kept : forall m m' flags aid,
 Proof.
   intros m m' flags aid (Hne & Hv & Hs) (Sa & Sb & Sc) Hk Hc. split; [|split].
   - apply alive_iff. eapply alive_keys; [exact Hk|apply alive_iff; exact Hne].
-  - rewrite Sc. exact Hv.
+  - intros xy Hin. rewrite Sc. apply Hv. rewrite <- Hk. exact Hin.
   - intros c s' Hat. destruct (Hc c s' Hat) as [Ho|[data ->]]; [exact (Hs c s' Ho)|].
     unfold loaded_core. cbn [cs_state]. destruct (Z.odd flags); reflexivity.
 Qed.
@@ -328,7 +330,7 @@ Lemma check_cores_progress : forall x y ps c w,
 Proof.
   intros x y ps. induction ps as [|p ps IH]; intros c w Hc Hm Ha Hxy Hin Hsp; [eexists _, _, _; reflexivity|].
   cbn [check_cores]. pose proof Ha as (Hne & Hv & _). change (2 ^ 32) with 4294967296 in Hv.
-  destruct (read_cpu_state_progress c w x y p Hc Hm (proj2 (alive_iff _) Hne) Hv (Hsp p (or_introl eq_refl)) Hxy Hin)
+  destruct (read_cpu_state_progress c w x y p Hc Hm (proj2 (alive_iff _) Hne) (Hv _ Hin) (Hsp p (or_introl eq_refl)) Hxy Hin)
     as (c1 & w1 & s & Hr). rewrite Hr. cbn [bind].
   apply read_cpu_state_inv in Hr; try assumption; [|apply Hsp; left; reflexivity]. destruct Hr as (Hm1 & Hc1 & Hs).
   rewrite Hs, state_member by exact Ha.
